@@ -96,10 +96,7 @@ func devMain(args []string) {
 	fmt.Printf("generated in %.1fs\n", tgen)
 	nok := 0
 	for _, o := range obs {
-		ok := o.result.Status == "unsat"
-		if o.Cover {
-			ok = o.result.Status == "sat"
-		}
+		ok := okResult(o)
 		if ok {
 			nok++
 			if !*verbose {
